@@ -112,3 +112,11 @@ Theorem C04_semver_prerelease_before_release : forall v w,
   sv_pre v <> [] -> sv_pre w = [] -> semver_cmp v w = (-1)%Z.
 Proof. exact semver_prerelease_before_release. Qed.
 Print Assumptions C04_semver_prerelease_before_release.
+
+(* the operator names of the source (gen/Tables.v, regenerated on every run) are the model's *)
+From LD Require Import TablesProof.
+From LDGen Require Import Tables.
+From Coq Require Import String.
+Theorem C04_operator_names_match_source : map (fun p => (fst p, str_of (snd p))) operator_names = model_ops.
+Proof. exact operator_names_match_source. Qed.
+Print Assumptions C04_operator_names_match_source.
